@@ -35,7 +35,7 @@ class Oracle(BaseOracle):
             sig["where"] = findings.where_of(ev, p)
             sig.update(feature_tags(ev, self.st, d))
             art = {"event": ev, "diff": {k: (oracles.jsonable_val(v) if k == "input" else v) for k, v in d.items()},
-                   "before": str(p), "after": str(q), "reported_cfg": [list(x) for x in (exempt or [])]}
+                   "before": oracles.sstr(p), "after": oracles.sstr(q), "reported_cfg": [list(x) for x in (exempt or [])]}
             self.violation(sig, art)
 
 
